@@ -123,6 +123,14 @@ def regen_consts():
         values["lib_mappings_translation"] = "ok (%d lines)" % gen.count("\n")
     except (xlate_lm.XlateError, OSError, IndexError, ValueError, KeyError, TypeError) as ex:
         values.setdefault("_errors", {})["lib_mappings_translation"] = "fxprof-processed-profile/src/lib_mappings.rs: %s" % ex
+    # the fifth translator: samply/src/linux_shared/svma_file_range.rs -> Generated/VmaBiasGen.v (C02), same rules
+    import xlate_vb
+    try:
+        gen = xlate_vb.generate(open(os.path.join(REPO, "samply", "src", "linux_shared", "svma_file_range.rs")).read())
+        write_if_changed(os.path.join(COQ, "Generated", "VmaBiasGen.v"), gen)
+        values["vma_bias_translation"] = "ok (%d lines)" % gen.count("\n")
+    except (xlate_vb.XlateError, OSError, IndexError, ValueError, KeyError, TypeError) as ex:
+        values.setdefault("_errors", {})["vma_bias_translation"] = "samply/src/linux_shared/svma_file_range.rs: %s" % ex
     return True, "", values
 
 
